@@ -116,7 +116,7 @@ structure DState where
   cname : Option Str := none
   nname : Option Str := none
 
-def env (now : Nat := 0) : Env := { hm := C03.glob, lower := asciiLower, now := now }
+def env (now : Nat := 0) : Env := { hm := C03.glob, lower := asciiLower, now := now, hx := patIntersect }
 
 def encParsed : Parsed → String
   | .blank => "blank"
@@ -193,6 +193,10 @@ def step (s : DState) : List String → DState × String
     | some caps, some c =>
       let r := if kind = "U" then userCapAdd caps c else capAdd caps c
       (s, encErr r.2 ++ "\t" ++ encL "," r.1)
+    | _, _ => (s, "bad-op")
+  | ["hx", p, q] =>
+    match dec p, dec q with
+    | some p, some q => (s, if patIntersect p q then "1" else "0")
     | _, _ => (s, "bad-op")
   | _ => (s, "bad-op")
 
